@@ -185,7 +185,11 @@ class Ctx:
         mm = re.search(r'<<"MISMATCHES", (".*")>>', text)
         if mm:
             mis = json.loads(json.loads(mm.group(1)))
-        res = {"accepted": False, "unmatched": None, "mismatches": mis, "detail": "", "log": str(outp)}
+        drift = []
+        dm = re.search(r'<<"DRIFT", (".*")>>', text)
+        if dm:
+            drift = json.loads(json.loads(dm.group(1)))
+        res = {"accepted": False, "unmatched": None, "mismatches": mis, "drift": drift, "detail": "", "log": str(outp)}
         if "Model checking completed. No error has been found." in text:
             res["accepted"] = True
             return res
